@@ -395,6 +395,8 @@ def mut_pointer(rng, m):
             if o["where"] in ("q", "owner") and s["where"] == "rdata":
                 s = o                                    # judge by the stricter site (both are on walked paths)
     elif kind == "oor":
+        if len(b) >= 0x3FFF:
+            return None                               # every 14-bit pointer value is in range for such a message
         v = rng.choice((len(b), len(b) + 1, 0x3FFF, rng.randint(len(b), 0x3FFF)))
     elif kind == "last-byte":
         v = len(b) - 1
